@@ -3,7 +3,10 @@ use std::{fs::OpenOptions, io::Write};
 use emmylua_code_analysis::load_configs_raw;
 use lsp_types::Command;
 use serde_json::Value;
+#[cfg(not(emmyluals_emmylua_analyzer_rust_verif))]
 use tokio::sync::RwLock;
+#[cfg(emmyluals_emmylua_analyzer_rust_verif)]
+use crate::verif_lock::RwLock;
 
 use crate::context::{ServerContextSnapshot, WorkspaceManager};
 
